@@ -68,21 +68,6 @@ theorem defines_unique (env : List (List Node)) (name : Text) (a b : Nat)
     (h1 : Defines env name a) (h2 : Defines env name b) : a = b :=
   Defines.det h1 h2
 
-theorem lookupEnv_append {name : Text} {extra : List (List Node)} :
-    ∀ {env : List (List Node)} {b : Node} {env' : List (List Node)},
-      lookupEnv name env = some (b, env') → lookupEnv name (env ++ extra) = some (b, env' ++ extra)
-  | [], _, _, h => by simp [lookupEnv] at h
-  | f :: outer, b, env', h => by
-    simp only [lookupEnv, List.cons_append] at h ⊢
-    cases hf : f.find? (bindsName name) with
-    | some b' =>
-      simp only [hf, Option.some.injEq, Prod.mk.injEq] at h ⊢
-      obtain ⟨rfl, rfl⟩ := h
-      exact ⟨rfl, rfl⟩
-    | none =>
-      simp only [hf] at h ⊢
-      exact lookupEnv_append h
-
 /-- *Lexical*: what lies further out never changes a derivation that succeeds further in. -/
 theorem defines_extend (env extra : List (List Node)) (name : Text) (bid : Nat)
     (h : Defines env name bid) : Defines (env ++ extra) name bid := by
@@ -262,46 +247,6 @@ theorem set_through_reference (d : Doc) (p k : Text) (v : Node) (rid : Nat) (nm 
 
 /-! ## 3. A name bound nowhere: the binding at the path is overwritten -/
 
-theorem scanChain_none_of_notBound {env0 : List (List Node)} (hwf : EnvWF env0) {name : Text}
-    (hname : nixName name = name) :
-    ∀ {env : List (List Node)}, (∀ f ∈ env, f ∈ env0) → NotBound env name → scanChain name env = none
-  | [], _, _ => rfl
-  | scope :: outer, hsub, hnb => by
-    rw [scanChain_cons, scanHit_eq (hwf.quote scope (hsub scope (by simp)))
-      (hwf.names scope (hsub scope (by simp))) hname, hnb scope (by simp)]
-    simp only
-    split
-    · rfl
-    · exact scanChain_none_of_notBound hwf hname (fun f hf => hsub f (by simp [hf]))
-        (fun f hf => hnb f (by simp [hf]))
-
-theorem resolveIdent_none_of_notBound (fuel : Nat) (env : List (List Node)) (name : Text)
-    (vis : List Nat) (hok : envOK env = true) (hname : nixName name = name)
-    (hnb : NotBound env name) : resolveIdent fuel env name vis = none := by
-  cases fuel with
-  | zero => rfl
-  | succ fuel =>
-    simp [resolveIdent, scanChain_none_of_notBound (EnvWF.of_envOK hok) hname (fun _ h => h) hnb]
-
-theorem find_named_none_of_notBound {frame : List Node} {name : Text} (hname : nixName name = name)
-    (h : frame.find? (bindsName name) = none) :
-    (frame.filter (·.isBind)).find? (·.bindName? == some name) = none := by
-  rw [List.find?_eq_none] at h ⊢
-  intro x hx
-  have hx' := (List.mem_filter.1 hx).1
-  have := h x hx'
-  cases x <;> simp [bindName?, bindsName] at this ⊢
-  intro e; subst e; exact this hname
-
-theorem findBinding_none_of_notBound {frame : List Node} {name : Text} (hname : nixName name = name)
-    (h : frame.find? (bindsName name) = none) : findBinding frame name = none := by
-  unfold findBinding
-  rw [List.find?_eq_none] at h ⊢
-  intro x hx
-  have := h x hx
-  cases x <;> simp [isBind, bindName?, bindsName] at this ⊢
-  intro e; subst e; exact this hname
-
 /-- **Unbound ⇒ overwrite.** When no frame of the chain binds the name, none of the `let_bindings`
     handed down by `set_value` is named so, and no sibling in the parent set is, `assignExisting`
     overwrites the binding at the path itself. -/
@@ -315,27 +260,6 @@ theorem assignExisting_unbound_overwrites (ts parent : Node) (wl : Bool) (rid : 
       (.ok (), d.updBind rid v) := by
   rw [assignExisting_ref, resolveIdent_none_of_notBound _ _ _ _ hok hname hchain]
   simp only [hlet, hsib]
-
-theorem scope_mem_chainEnv (d : Doc) (ts : Node) (h : d.scope ≠ []) :
-    d.scope ∈ chainEnv d ts true := by
-  have : d.scope.isEmpty = false := by cases hs : d.scope <;> simp_all
-  simp [chainEnv, scopeChain, this]
-
-theorem letBindings_none_of_notBound (d : Doc) (name : Text) (hname : nixName name = name)
-    (hnb : NotBound (docEnv d) name) :
-    (letBindings d).find? (·.bindName? == some name) = none := by
-  unfold letBindings
-  cases ht : d.topScope with
-  | some s =>
-    exact find_named_none_of_notBound hname (hnb s (by simp [docEnv, ht]))
-  | none =>
-    by_cases hs : d.scope = []
-    · simp [hs]
-    · exact find_named_none_of_notBound hname
-        (hnb d.scope (by simp only [docEnv, List.mem_append]; exact Or.inl (scope_mem_chainEnv d _ hs)))
-
-theorem envOK_append_left {a b : List (List Node)} (h : envOK (a ++ b) = true) : envOK a = true := by
-  simp only [envOK, List.all_append, Bool.and_eq_true] at h; exact h.1
 
 /-- A plain `set k v` on a binding of the target that holds the reference `name`, `name` bound
     nowhere in the document (no let layer, not the `rec` set itself, not the recorded layer of the
@@ -471,26 +395,6 @@ theorem not_c11_full_defining : ¬ (∀ (d : Doc) (p k : Text) (v : Node) (rid :
     (by decide) 4 cex_topscope_chain_not_followed.1
   rw [cex_topscope_chain_not_followed.2.1] at h1
   exact cex_topscope_chain_not_followed.2.2 (by simpa using h1)
-
-theorem inheritFree_append_left {a b : List (List Node)} {name : Text}
-    (h : inheritFree (a ++ b) name = true) : inheritFree a name = true := by
-  simp only [inheritFree, inheritClear, List.all_append, Bool.and_eq_true, List.all_eq_true] at h ⊢
-  refine ⟨h.1.1, fun f hf n hn => ?_⟩
-  have := h.2.1 f hf n hn
-  cases n with
-  | bind i nm ne v bf af =>
-    cases v with
-    | ident n' =>
-      simp only [Bool.and_eq_true, List.all_eq_true] at this ⊢
-      exact this.1
-    | _ => rfl
-  | _ => rfl
-
-theorem idsNodup_append_left {a b : List (List Node)} (h : idsNodup (a ++ b) = true) :
-    idsNodup a = true := by
-  rw [idsNodup_iff] at h ⊢
-  simp only [envIds, List.flatten_append, List.filterMap_append] at h
-  exact (List.nodup_append.1 h).1
 
 /-- PARTIAL (everything but the deviations above). For a plain single-segment `set` on a binding of
     the target that holds a reference, in a well-formed document:
@@ -652,5 +556,123 @@ theorem history_frame (es : List RefEdit) (d : Doc) (hd : DocOk d)
   rw [history_through_references es d hd hes hdisj]
   exact ⟨(foldl_write_wrappers es d).1, (foldl_write_wrappers es d).2,
     fun b hb => foldl_write_others b es hb d⟩
+
+/-! ## Non-vacuity: a document with two let layers, shadowing, a `rec` set, chains, a quoted name -/
+
+/-- `let v = w; w = "0"; in let w = "1"; u = v; inherit lib; in
+    rec { version = u; a = x; x = "3"; "q" = "4"; name = q; free = nowhere; }`
+
+    `version → u → v → w`: `u` is found in the inner layer, `v` in the outer one, and from there `w`
+    is the OUTER `w = "0"` (object 8) — the inner `w = "1"` (object 9) shadows it only for references
+    made further in. -/
+def exDoc : Doc :=
+  { target := .set 1
+      [ .bind 2 "version".toList false (.ident "u".toList) [] [],
+        .bind 3 "a".toList false (.ident "x".toList) [] [],
+        .bind 4 "x".toList false (.atom "\"3\"".toList) [] [],
+        .bind 5 "\"q\"".toList false (.atom "\"4\"".toList) [] [],
+        .bind 6 "name".toList false (.ident "q".toList) [] [],
+        .bind 11 "free".toList false (.ident "nowhere".toList) [] [] ] [] true true
+    scope := [ .bind 7 "v".toList false (.ident "w".toList) [] [],
+               .bind 8 "w".toList false (.atom "\"0\"".toList) [] [] ]
+    stack := [ { scope := [ .bind 9 "w".toList false (.atom "\"1\"".toList) [] [],
+                            .bind 10 "u".toList false (.ident "v".toList) [] [],
+                            .inherit 12 ["lib".toList] ],
+                 order := [], bodyBefore := [], bodyAfter := [], afterLet := none } ]
+    next := 13 }
+
+/-- the side conditions hold of it (three frames, an `inherit` clause, a quoted name) -/
+example : envOK (docEnv exDoc) = true ∧ idsNodup (docEnv exDoc) = true ∧
+    inheritFree (docEnv exDoc) "u".toList = true ∧ nixName "u".toList = "u".toList := by decide
+
+/-- SPEC at work — chain of length 3 across both layers, outwards only: object 8, not 9 -/
+theorem ex_defines_u : Defines (chainEnv exDoc exDoc.target true) "u".toList 8 :=
+  resolveIdent_sound 4 _ _ _ (by decide) (by decide) (by decide)
+
+/-- … directly from the constructors (the SPEC does not need the resolver) -/
+example : Defines (chainEnv exDoc exDoc.target true) "u".toList 8 :=
+  Defines.ref (env' := [(exDoc.stack.map (·.scope)).headD [], exDoc.scope]) rfl
+    (Defines.ref (env' := [exDoc.scope]) rfl (Defines.value (env' := [exDoc.scope]) rfl rfl))
+
+/-- the quoted binding `"q" = …` defines `q`; the `rec` set's own `x` defines `x` -/
+theorem ex_defines_q : Defines (chainEnv exDoc exDoc.target true) "q".toList 5 :=
+  resolveIdent_sound 2 _ _ _ (by decide) (by decide) (by decide)
+theorem ex_defines_x : Defines (chainEnv exDoc exDoc.target true) "x".toList 4 :=
+  resolveIdent_sound 2 _ _ _ (by decide) (by decide) (by decide)
+
+/-- `resolveIdent_complete` / `resolveIdent_iff`: hypotheses satisfiable, fuel of `assignThrough` -/
+example : resolveIdent (throughFuel exDoc exDoc.target true) (chainEnv exDoc exDoc.target true)
+    "u".toList [] = some 8 :=
+  (resolveIdent_iff exDoc exDoc.target true _ 8 (by decide) (by decide) (by decide) (by decide)).2
+    ex_defines_u
+
+/-- `visited_distinct`: the path is `10, 7, 8` -/
+example : ∃ p, Path (chainEnv exDoc exDoc.target true) "u".toList p 8 ∧ p.Nodup ∧ p.length ≤ 11 := by
+  obtain ⟨p, h1, h2, _, h4⟩ := visited_distinct _ _ _ (by decide) ex_defines_u
+  exact ⟨p, h1, h2, h4⟩
+
+/-- `assignThrough_exact`: its hypothesis holds here … -/
+example : assignThrough exDoc.target true "u".toList newV exDoc = (.ok true, exDoc.updBind 8 newV) :=
+  assignThrough_complete _ _ _ _ _ 8 (by decide) (by decide) (by decide) (by decide) ex_defines_u
+/-- … and `assignThrough_declines_clean`'s for the unbound name -/
+example : assignThrough exDoc.target true "nowhere".toList newV exDoc = (.ok false, exDoc) := by decide
+
+/-- `set version "NEW"` writes object 8 (`w = "0"` of the OUTER layer) and `version` still holds `u` -/
+example : setValue "version".toList (.one newV) exDoc = (.ok (), exDoc.updBind 8 newV) ∧
+    findBinding (exDoc.updBind 8 newV).target.setValues "version".toList =
+      some (.bind 2 "version".toList false (.ident "u".toList) [] []) := by
+  have h := set_through_reference exDoc "version".toList "version".toList newV 2 "version".toList false
+    "u".toList [] [] 8 rfl (by decide) (by decide) (by decide) (by decide) (by decide) (by decide)
+    (by decide) (by decide) ex_defines_u
+  exact ⟨h.1, h.2 (by decide)⟩
+
+/-- `set free "NEW"`: `nowhere` is bound nowhere, no sibling: `free` itself is overwritten -/
+example : setValue "free".toList (.one newV) exDoc = (.ok (), exDoc.updBind 11 newV) :=
+  set_unbound_overwrites exDoc "free".toList "free".toList newV 11 "free".toList false
+    "nowhere".toList [] [] rfl (by decide) (by decide) (by decide) (by decide) (by decide) (by decide)
+    (by decide) (by decide)
+
+example : assignExisting exDoc.target exDoc.target true
+    (.bind 11 "free".toList false (.ident "nowhere".toList) [] []) newV exDoc =
+      (.ok (), exDoc.updBind 11 newV) :=
+  assignExisting_unbound_overwrites _ _ _ _ _ _ _ _ _ _ _ (by decide) (by decide) (by decide)
+    (by decide) (by decide)
+
+/-- both clauses of `c11_partial` are inhabited by `exDoc` -/
+example : setValue "name".toList (.one newV) exDoc = (.ok (), exDoc.updBind 5 newV) :=
+  (c11_partial exDoc "name".toList "name".toList newV 6 "name".toList false "q".toList [] []
+    rfl (by decide) (by decide) (by decide) (by decide) (by decide) (by decide) (by decide)
+    (by decide)).1 rfl 5 ex_defines_q
+
+/-- a history: `set version 1; set a 2; set name 3; set version 4` -/
+def exEdits : List RefEdit :=
+  [ ⟨"version".toList, "version".toList, 2, "version".toList, false, "u".toList, [], [], 8, .atom "1".toList⟩,
+    ⟨"a".toList, "a".toList, 3, "a".toList, false, "x".toList, [], [], 4, .atom "2".toList⟩,
+    ⟨"name".toList, "name".toList, 6, "name".toList, false, "q".toList, [], [], 5, .atom "3".toList⟩,
+    ⟨"version".toList, "version".toList, 2, "version".toList, false, "u".toList, [], [], 8, .atom "4".toList⟩ ]
+
+theorem ex_history_hyps : DocOk exDoc ∧ (∀ e ∈ exEdits, e.Ok exDoc) ∧
+    (∀ e ∈ exEdits, ∀ e' ∈ exEdits, e.rid ≠ e'.bid) := by
+  refine ⟨⟨rfl, by decide, by decide⟩, ?_, by decide⟩
+  intro e he
+  simp only [exEdits, List.mem_cons, List.not_mem_nil, or_false] at he
+  rcases he with rfl | rfl | rfl | rfl
+  · exact ⟨by decide, by decide, by decide, by decide, by decide, by decide, ex_defines_u, by decide⟩
+  · exact ⟨by decide, by decide, by decide, by decide, by decide, by decide, ex_defines_x, by decide⟩
+  · exact ⟨by decide, by decide, by decide, by decide, by decide, by decide, ex_defines_q, by decide⟩
+  · exact ⟨by decide, by decide, by decide, by decide, by decide, by decide, ex_defines_u, by decide⟩
+
+example : run (exEdits.map RefEdit.op) exDoc =
+    (((exDoc.updBind 8 (.atom "1".toList)).updBind 4 (.atom "2".toList)).updBind 5
+      (.atom "3".toList)).updBind 8 (.atom "4".toList) :=
+  history_through_references exEdits exDoc ex_history_hyps.1 ex_history_hyps.2.1 ex_history_hyps.2.2
+
+/-- the hypotheses of the counterexamples' documents: all side conditions hold of them, so the
+    deviations are not artefacts of an ill-formed input -/
+example : envOK (docEnv sibDoc) = true ∧ idsNodup (docEnv sibDoc) = true ∧
+    envOK (docEnv topDoc) = true ∧ idsNodup (docEnv topDoc) = true ∧
+    inheritFree (docEnv topDoc) "v".toList = true ∧
+    envOK (docEnv crossDoc) = true ∧ idsNodup (docEnv crossDoc) = true ∧
+    inheritFree (docEnv crossDoc) "v".toList = true := by decide
 
 end Nima.C11
